@@ -6,6 +6,7 @@ import (
 	"encoding/json"
 	"fmt"
 	"testing"
+	"time"
 
 	"github.com/attestantio/dirk/services/checker"
 	staticchecker "github.com/attestantio/dirk/services/checker/static"
@@ -158,7 +159,9 @@ func TestC07A(t *testing.T) {
 	}
 	rapid.Check(t, func(rt *rapid.T) {
 		c := genCaseA(rt)
+		stop := vkit.Watch(c, 120*time.Second)
 		o, v, err := runA(c)
+		stop()
 		if err != nil {
 			rt.Fatalf("INFRA: %v", err)
 		}
